@@ -1,17 +1,13 @@
-import TorchDataVerif.Proofs.PMGen2Inv
+import TorchDataVerif.Proofs.PMGen2K
 /-! `Gen2` sanity: going through `gstep` never blocks the consumer — in every reachable state of `_shutdown`'s join
 sequence the join at hand can return (`joinOk`) or give up (`joinGiveUp`), or the constructor can start. -/
 namespace TDV.PM
 variable {c : Cfg} {x y : G2State}
 
-def Ph.isJoin : Ph → Bool
-  | .joinS | .joinW _ => true
-  | _ => false
-
 /-- the join phases are only entered from, and never leave, `cpc = closed` -/
-def J (x : G2State) : Prop := x.ph.isJoin = true → x.g.cur.cpc = .closed
+def J (x : G2State) : Prop := x.ph.joining = true → x.g.cur.cpc = .closed
 
-theorem j_init (c : Cfg) : J (g2init c) := by simp [J, g2init, Ph.isJoin]
+theorem j_init (c : Cfg) : J (g2init c) := by simp [J, g2init, Ph.joining]
 
 theorem j_step {a : G2Action} (hj : J x) (h : g2step c x a = some y) : J y := by
   cases a
@@ -23,8 +19,8 @@ theorem j_step {a : G2Action} (hj : J x) (h : g2step c x a = some y) : J y := by
   case rInitEnter => obtain ⟨_, _, _, rfl⟩ := g2_rInitEnter h; exact hj
   case joinOk t => obtain ⟨ph', _, hc, rfl⟩ := g2_joinOk h; exact fun _ => hc
   case joinGiveUp t => obtain ⟨ph', _, hc, rfl⟩ := g2_joinGiveUp h; exact fun _ => hc
-  case ctorEnter => obtain ⟨k, _, _, _, rfl⟩ := g2_ctorEnter h; simp [J, Ph.isJoin]
-  case ctorLeave => obtain ⟨_, rfl⟩ := g2_ctorLeave h; simp [J, Ph.isJoin]
+  case ctorEnter => obtain ⟨k, _, _, _, rfl⟩ := g2_ctorEnter h; simp [J, Ph.joining]
+  case ctorLeave => obtain ⟨_, rfl⟩ := g2_ctorLeave h; simp [J, Ph.joining]
 
 theorem j_run : ∀ (tr : List G2Action) {x y : G2State}, J x → g2run c x tr = some y → J y
   | [], x, y, hj, hr => by simp [g2run] at hr; subst hr; exact hj
@@ -50,5 +46,45 @@ theorem threadsLive_pos_worker {s : State} {k : Nat} {p : WPc} (hk : s.wk[k]? = 
   have := List.length_pos_of_mem hm
   unfold threadsLive
   omega
+
+/-- whenever `_shutdown` has a thread to join, exactly the matching join action is enabled -/
+theorem join_enabled (hj : J x) {t : Thr} {alive : Bool} {ph' : Ph}
+    (ht : joinTarget x.g.cur x.ph = some (t, alive, ph')) :
+    (g2step c x (if alive then .joinGiveUp t else .joinOk t)).isSome = true := by
+  have hc : x.g.cur.cpc = .closed := by
+    cases hp : x.ph with
+    | run =>
+      simp only [joinTarget, hp] at ht
+      split at ht
+      · assumption
+      · simp at ht
+    | joinS => exact hj (by simp [hp, Ph.joining])
+    | joinW k => exact hj (by simp [hp, Ph.joining])
+    | reset => simp [joinTarget, hp] at ht
+  cases alive
+  · simp [g2step, ht, gstep, hc]
+  · have hl : 0 < threadsLive x.g.cur := by
+      cases hp : x.ph with
+      | run =>
+        simp [joinTarget, hp, hc] at ht
+        exact threadsLive_pos_reader (by simpa using ht.2.1)
+      | joinS =>
+        simp [joinTarget, hp] at ht
+        exact threadsLive_pos_sorter ht.2.1.1 ht.2.1.2
+      | joinW k =>
+        simp only [joinTarget, hp] at ht
+        split at ht
+        · rename_i p hk
+          simp at ht
+          exact threadsLive_pos_worker hk ht.2.1.1 ht.2.1.2
+        · simp at ht
+      | reset => simp [joinTarget, hp] at ht
+    simp [g2step, ht, gstep, hc, hl]
+
+/-- past the last worker the new iterator's constructor can start -/
+theorem ctor_enabled (hj : J x) {k : Nat} (hp : x.ph = .joinW k) (hk : x.g.cur.wk[k]? = none) :
+    (g2step c x .ctorEnter).isSome = true := by
+  have hc : x.g.cur.cpc = .closed := hj (by simp [hp, Ph.joining])
+  simp [g2step, hp, hk, gstep, hc]
 
 end TDV.PM
